@@ -10,6 +10,7 @@ from __future__ import annotations
 import copy
 
 from sim import iso, sparqlref as R
+from sim import kernel
 from sim.kernel import KnownStop
 from sim.rng import Stream
 from sim.terms import EX, XSD, T, key, u
@@ -255,7 +256,7 @@ def generate(seed, tier):
                 # initBindings: the WHERE clause is evaluated with that variable already bound (= joined with that one row)
                 req["initb"] = [v, g.choice([_tri(g)[0], _tri(g)[2], _tri(g)[2], ["l", "", None, None], ["l", "0", None, XSD + "integer"], ["l", "false", None, XSD + "boolean"]])]
         requests.append(req)
-    return {"property": ID, "config": {"union": union, "init": init}, "ops": requests}
+    return {"property": ID, "config": {"union": union, "init": init, "subscriber": g.chance(0.15)}, "ops": requests}
 
 
 def _leading_var(p, g):
@@ -318,6 +319,8 @@ def execute(trace, ctx):
     sparql_mod.SPARQL_LOAD_GRAPHS = False  # USING <g> / USING NAMED <g> name graphs of the graph store, nothing is fetched
     ctx.probe("union-on" if union else "union-off")
     store = Memory()
+    if trace["config"].get("subscriber"):
+        kernel.counting_subscriber(store, ctx)
     DEFK = ("u", str(DATASET_DEFAULT_GRAPH_ID))
     model = {R.DEFAULT: set()}
     for s, p, o, gi in cfg["init"]:
